@@ -70,38 +70,93 @@ type c17Writer struct{}
 
 func (c17Writer) Write(p []byte) (int, error) { return len(p), nil }
 
-// c17Gate holds the racers that are inside the check->record window until `need` of
-// them are inside, or until every racer is accounted for (inside, or returned without
-// ever entering = refused at the check). Every wait is capped by the watchdog.
-type c17Gate struct {
-	n, need  int32
-	arrived  atomic.Int32 // racers that entered the window
-	early    atomic.Int32 // racers that returned without entering
-	cur      atomic.Int32 // racers inside the window right now
-	maxCur   atomic.Int32
-	atOpen   atomic.Int32 // racers inside when the gate opened
-	open     chan struct{}
-	once     sync.Once
-	timedOut atomic.Bool
+// c17HookGate holds requests inside the check->record window until `need` of them are
+// there, or every racer is accounted for (inside, or returned while the gate was still
+// closed = refused at the check), or nothing has moved for c17Stall (the remaining
+// racers are blocked on something the code under test holds, e.g. a lock around
+// check+record: a scheduling decision, never a verdict). Every wait is capped.
+type c17HookGate struct {
+	n, need     int32
+	arrived     atomic.Int32
+	early       atomic.Int32
+	atOpen      atomic.Int32
+	progress    atomic.Int64 // unix nanos of the last arrival / early return
+	open        chan struct{}
+	once        sync.Once
+	timedOut    atomic.Bool
+	stallOpened atomic.Bool
 }
 
-func c17NewGate(n, need int) *c17Gate {
+const c17Stall = 4 * time.Millisecond
+
+func c17NewHookGate(n, need int) *c17HookGate {
 	if need > n {
 		need = n
 	}
 	if need < 1 {
 		need = 1
 	}
-	return &c17Gate{n: int32(n), need: int32(need), open: make(chan struct{})}
+	g := &c17HookGate{n: int32(n), need: int32(need), open: make(chan struct{})}
+	g.progress.Store(time.Now().UnixNano())
+	return g
 }
 
-func (g *c17Gate) maybeOpen() {
+func (g *c17HookGate) openNow() {
+	g.once.Do(func() {
+		g.atOpen.Store(g.arrived.Load())
+		close(g.open)
+	})
+}
+
+func (g *c17HookGate) maybeOpen() {
 	a := g.arrived.Load()
 	if a >= g.need || a+g.early.Load() >= g.n {
-		g.once.Do(func() {
-			g.atOpen.Store(g.cur.Load())
-			close(g.open)
-		})
+		g.openNow()
+	}
+}
+
+func (g *c17HookGate) isOpen() bool {
+	select {
+	case <-g.open:
+		return true
+	default:
+		return false
+	}
+}
+
+func (g *c17HookGate) enter() {
+	if g.isOpen() {
+		return
+	}
+	g.arrived.Add(1)
+	g.progress.Store(time.Now().UnixNano())
+	g.maybeOpen()
+	began := time.Now()
+	for {
+		select {
+		case <-g.open:
+			return
+		case <-time.After(time.Millisecond):
+			if time.Since(time.Unix(0, g.progress.Load())) > c17Stall {
+				g.stallOpened.Store(true)
+				g.openNow()
+				return
+			}
+			if time.Since(began) > c17Watchdog {
+				g.timedOut.Store(true)
+				return
+			}
+		}
+	}
+}
+
+// returned: while the gate is closed every racer that arrived is still held, so a
+// return seen before the gate opens belongs to a racer refused at the check.
+func (g *c17HookGate) returned() {
+	if !g.isOpen() {
+		g.early.Add(1)
+		g.progress.Store(time.Now().UnixNano())
+		g.maybeOpen()
 	}
 }
 
@@ -111,27 +166,6 @@ func c17StoreMax(m *atomic.Int32, v int32) {
 		if v <= o || m.CompareAndSwap(o, v) {
 			return
 		}
-	}
-}
-
-func (g *c17Gate) enter() {
-	c17StoreMax(&g.maxCur, g.cur.Add(1))
-	g.arrived.Add(1)
-	g.maybeOpen()
-	select {
-	case <-g.open:
-	case <-time.After(c17Watchdog):
-		g.timedOut.Store(true)
-	}
-}
-
-// returned is called by a racer after its call came back.
-func (g *c17Gate) returned(entered bool) {
-	if entered {
-		g.cur.Add(-1)
-	} else {
-		g.early.Add(1)
-		g.maybeOpen()
 	}
 }
 
@@ -330,7 +364,7 @@ func c17ConnTrial(run *vk.Run, cs c17ConnCase) {
 	}
 	tn := c17TrialSeq.Add(1)
 	run.Case("maxconn", cs)
-	gate := c17NewGate(cs.N, cs.Need)
+	gate := c17NewHookGate(cs.N, cs.Need)
 	var spin c17Spin
 	type res struct {
 		id  string
@@ -353,7 +387,7 @@ func c17ConnTrial(run *vk.Run, cs c17ConnCase) {
 			spin.wait()
 			c, err := w.sm.CreateConnection(rd, c17Writer{})
 			if gr != nil {
-				gate.returned(gr.arrived.Load())
+				gate.returned()
 			}
 			if err == nil && c != nil {
 				results[i].id = c.ID
@@ -378,7 +412,10 @@ func c17ConnTrial(run *vk.Run, cs c17ConnCase) {
 			admitted = append(admitted, r.id)
 		}
 	}
-	c17JudgeConn(run, w, cs, prefillIDs, admitted, refused, int(gate.maxCur.Load()), nil)
+	if gate.stallOpened.Load() {
+		run.Count("gate_opened_by_stall", 1)
+	}
+	c17JudgeConn(run, w, cs, prefillIDs, admitted, refused, int(gate.atOpen.Load()), nil)
 }
 
 func TestVerifC17MaxConn(t *testing.T) {
@@ -647,8 +684,26 @@ func TestVerifC17ControlCap(t *testing.T) {
 // (ii-b) TunnelRegistry.Register vs MaxTunnels (refusing cap)
 // ---------------------------------------------------------------------------
 
+// c17YieldLogger yields on every Debugf/Warnf: both are issued by TunnelRegistry.Register
+// while it holds its lock, so the other racers pile up behind it (calls overlap in time).
+type c17YieldLogger struct {
+	corelog.NopLogger
+	yields int
+}
+
+func (l *c17YieldLogger) Debugf(string, ...interface{}) {
+	for i := 0; i < l.yields; i++ {
+		runtime.Gosched()
+	}
+}
+func (l *c17YieldLogger) Warnf(string, ...interface{}) {
+	for i := 0; i < l.yields; i++ {
+		runtime.Gosched()
+	}
+}
+
 func c17TunnelTrial(run *vk.Run, cs c17RegCase, tn int) {
-	reg := NewTunnelRegistry(&TunnelRegistryConfig{MaxTunnels: cs.Limit, Logger: corelog.NewNopLogger()})
+	reg := NewTunnelRegistry(&TunnelRegistryConfig{MaxTunnels: cs.Limit, Logger: &c17YieldLogger{yields: cs.Yields}})
 	want := map[string]bool{}
 	for i := 0; i < cs.Prefill; i++ {
 		id := fmt.Sprintf("pre-%d", i)
@@ -713,7 +768,7 @@ func c17TunnelTrial(run *vk.Run, cs c17RegCase, tn int) {
 	if refused > 0 {
 		run.Count("tunnel_refusals_checked", int64(refused))
 	}
-	run.Distinct(fmt.Sprintf("tunnel|L%d|P%d|N%d|max%d|ref%d|inflight%d", cs.Limit, cs.Prefill, cs.N, out.MaxCount, refused, out.MaxInFlight))
+	run.Distinct(fmt.Sprintf("tunnel|L%d|P%d|N%d|Y%d|max%d|ref%d|inflight%d", cs.Limit, cs.Prefill, cs.N, cs.Yields, out.MaxCount, refused, out.MaxInFlight))
 	run.Sample(out)
 	if cs.Limit > 0 && (out.MaxCount > cs.Limit || out.FinalCount > cs.Limit) {
 		run.Violation("C17:tunnel-cap|exceeded", out)
@@ -743,12 +798,12 @@ func TestVerifC17TunnelCap(t *testing.T) {
 		"afterwards connMap/tunnelMap must hold exactly prefill + admitted. distinct = (L, prefill, N, max Count, refused, max calls in flight)")
 	run.Floor("tunnel_trials_2plus_in_flight", 100)
 	run.Floor("tunnel_refusals_checked", 100)
-	reps := run.Pick(100, 2000)
+	reps := run.Pick(200, 4000)
 	tn := 0
 	for _, L := range c17Limits {
 		for _, N := range c17Ns {
 			for rep := 0; rep < reps && run.Violations() < 20; rep++ {
-				cs := c17RegCase{Kind: "tunnel", Limit: L, N: N, Prefill: L - 1}
+				cs := c17RegCase{Kind: "tunnel", Limit: L, N: N, Prefill: L - 1, Yields: 1 + rep%3}
 				if cs.Prefill < 0 {
 					cs.Prefill = 0
 				}
